@@ -15,6 +15,7 @@ from .templates import templates_of
 from .util import Vars, reaches_without
 from . import p_c01, p_c02, p_c09, witness
 
+TECHNIQUE = 'static analysis: code-generator templates recovered from format_args! constants in MIR; generated witness crate type-checked by rustc; event-language equality of instantiated templates against the language table; placeholder provenance (units) and format-string-position lint'
 LEVEL = "other"
 EXPLANATION = (
     "Translation-validation style static check of the code generator, per template and for all programs at once: "
